@@ -106,10 +106,11 @@ def cached_method(func: Callable):
     def cached_fn(self, *args):
         if getattr(self, '__cache__', None) is None:
             setattr(self, '__cache__', {})
-        value = self.__cache__.get(args, ...)
+        key = (func.__name__, *args)
+        value = self.__cache__.get(key, ...)
         if value is Ellipsis:
             value = func(self, *args)
-            self.__cache__[args] = value
+            self.__cache__[key] = value
         return value
 
     return cached_fn
